@@ -6,9 +6,11 @@
 EXTENDS Tags
 MCTagOrder == <<"t1", "t2">>
 MCTagOrder3 == <<"t1", "t2", "t3">>
-C(b, td, pg, c, i) == [backend |-> b, tagdel |-> td, page |-> pg, cache |-> c, init |-> i, old |-> {}, warm |-> FALSE]
+C(b, td, pg, c, i) == [backend |-> b, tagdel |-> td, page |-> pg, cache |-> c, init |-> i, old |-> {}, warm |-> FALSE, mod |-> FALSE]
 Warm(S) == S \cup {[c EXCEPT !.warm = TRUE] : c \in {x \in S : x.cache}}
 Old(S, o) == {[c EXCEPT !.old = o] : c \in S}
+\* the layout was already modified through the client when the round starts (a collection has work to do)
+Mod(S) == {[c EXCEPT !.mod = TRUE] : c \in S}
 Reg(inits) == Warm({C("reg", td, pg, c, i) : td \in BOOLEAN, pg \in {0, 1, 2}, c \in BOOLEAN, i \in inits})
 Lay(inits) == {C("layout", TRUE, 0, FALSE, i) : i \in inits}
 CleanInits == {"nodir", "empty", "pair", "untagged"}
@@ -21,12 +23,12 @@ LayAll == Lay(CleanInits \cup ForeignInits)
 LayPair == Lay({"pair"})
 \* must hold: the code as it is
 SeqConfs == RegConfs \cup LayAll
-Conc2Confs == RegConfs \cup LayAll
+Conc2Confs == RegConfs \cup LayAll \cup Mod(Lay((CleanInits \cup ForeignInits) \ {"nodir", "empty"}))
 \* 3 tags in the registry so that paging has something to page
 RegConfs3 == Reg({"pair", "shared"})
 LayConfs3 == Lay({"pair", "shared", "untagged", "nodir"})
 SeqConfs3 == RegConfs3 \cup LayConfs3 \cup Reg({"empty"}) \cup Lay(ForeignInits)
-SchedConfs == RegConfs3 \cup LayConfs3
+SchedConfs == RegConfs3 \cup LayConfs3 \cup Mod(Lay({"pair", "shared", "untagged"}))
 
 \* the behaviour before the repairs: each of these must keep producing its counterexample (they explain
 \* the seeds seeded/fixrev-C06-* and keep the switch conf.old honest)
@@ -34,6 +36,8 @@ OldDup == Old(Lay({"dupadj"}), {"layout"})
 OldFullName == Old(Lay({"fullname", "mixed"}), {"layout"})
 OldCache == Old({c \in RegCache : c.init = "pair" /\ c.page = 0}, {"cache"})
 OldHead == Old(LayPair, {"head"})
+\* the neighbouring design of Close with the narrowed lock (seeded/C06-10)
+GcUnlocked == Old(Mod(LayPair), {"gc"})
 \* sanity variants of the design itself
 RegFallbackPair == {c \in RegConfs : ~c.cache /\ c.init = "pair" /\ ~c.tagdel /\ c.page = 0}
 
@@ -46,7 +50,9 @@ Seq1Both == Seq1Confs \cup Old(Lay(ForeignInits), {"layout"})
 \* registry variants where interleavings matter most (fall-back delete, paged listing, cache cold / warm)
 SchedAllConfs == {c \in RegConfs3 : c.init = "shared" /\ c.page = 1 /\ (c.cache => c.warm)}
 
-AllKinds == {"push", "pushd", "tagdel", "mdel", "mdelr", "head", "get", "list"}
+AllKinds == {"push", "pushd", "tagdel", "mdel", "mdelr", "head", "get", "list", "gc"}
 MutOnly == {"push", "pushd", "tagdel", "mdel", "mdelr"}
+MutGc == MutOnly \cup {"gc"}
+GcRaceKinds == {"push", "gc"}
 HeadRaceKinds == {"push", "mdel", "head"}
 =============================================================================
